@@ -303,7 +303,12 @@ def _sig_first_word_overflow(case: dict, f: Failure) -> bool:
         toks, c0, cr = case["tokens"], len(case["ii"]) + case.get("ic", 0), len(case["si"])
     else:
         return False
-    return bool(toks) and c0 > cr and c0 + len(toks[0]) > case["width"]
+    if not toks or c0 <= cr:
+        return False
+    first = len(toks[0])
+    if case.get("md") and RULE_RE.match(toks[0]):
+        first *= 2  # a rule-like first word is re-laid out with a backslash before every character when it would stand alone
+    return c0 + first > case["width"]
 
 
 def _sig_sentence_merge_indent(case: dict, f: Failure) -> bool:
